@@ -10,6 +10,8 @@ import QV.Proofs.WriterRdPos
 namespace QV.Writer
 open QV QV.Wire QV.Spec QV.ServerSafety
 
+variable {P : CMode → Prop}
+
 structure QItC where
   a : Nat
   k : Nat
@@ -152,9 +154,10 @@ theorem rchainC_fields {s s' : State} (ho : s'.octets = s.octets) (hc : s'.curso
 
 /-- **the layout invariant with content**, for every compression mode: `b` = the questions and
     records given by the calls that succeeded -/
-structure CLay (s : State) (b : Body) : Prop where
-  q : ∃ qs, QChainC s qs 12 s.rrStart ∧ qs.map (·.q) = b.qs
-  r : s.cursor ≤ 65535 → ∃ rs, RChainC s rs s.rrStart s.cursor ∧ rs.map (·.r) = b.an ++ b.ns ++ b.ar
+structure CLay (P : CMode → Prop) (s : State) (b : Body) : Prop where
+  q : ∃ qs, QChainC s qs 12 s.rrStart ∧ qs.map (·.q) = b.qs ∧ ∀ it ∈ qs, P it.m
+  r : s.cursor ≤ 65535 → ∃ rs, RChainC s rs s.rrStart s.cursor ∧ rs.map (·.r) = b.an ++ b.ns ++ b.ar ∧
+    ∀ it ∈ rs, P it.m
   qd : s.qdcount = b.qs.length
   an : s.ancount = b.an.length
   ns : s.nscount = b.ns.length
@@ -162,22 +165,26 @@ structure CLay (s : State) (b : Body) : Prop where
   sq : s.sect = .question → s.cursor = s.rrStart ∧ b.an = [] ∧ b.ns = [] ∧ b.ar = []
   sa : s.sect = .answer → b.ns = [] ∧ b.ar = []
   su : s.sect = .authority → b.ar = []
+  /-- the mode in effect is one of the modes of the session -/
+  pm : P s.mode
 
-theorem clay_rr12 {s : State} {b : Body} (h : CLay s b) : 12 ≤ s.rrStart := by
+theorem clay_rr12 {s : State} {b : Body} (h : CLay P s b) : 12 ≤ s.rrStart := by
   obtain ⟨qs, hq, _⟩ := h.q
   exact qchainC_le hq
 
 /-- the layout only depends on the octets from 12 up to the cursor, the cursor, `rr_start`, the
     recorded label starts, the counts and the section -/
-theorem clay_congr {s s' : State} {b : Body} (h : CLay s b) (hw : WInv s) (hrr : s.rrStart ≤ s.cursor)
+theorem clay_congr {s s' : State} {b : Body} (h : CLay P s b) (hw : WInv s) (hrr : s.rrStart ≤ s.cursor)
     (hpre : ∀ i, 12 ≤ i → i < s.cursor → s'.octets[i]? = s.octets[i]?)
     (hc : s'.cursor = s.cursor) (hr : s'.rrStart = s.rrStart)
     (hg : ∀ g ∈ s.gLabels, g ∈ s'.gLabels)
     (hqd : s'.qdcount = s.qdcount) (han : s'.ancount = s.ancount) (hns : s'.nscount = s.nscount)
-    (har : s'.arcount = s.arcount) (hp : pend s' = pend s) (hs : s'.sect = s.sect) : CLay s' b := by
+    (har : s'.arcount = s.arcount) (hp : pend s' = pend s) (hs : s'.sect = s.sect)
+    (hmode : s'.mode = s.mode) : CLay P s' b := by
   have h12 := clay_rr12 h
   refine ⟨?_, ?_, by rw [hqd]; exact h.qd, by rw [han]; exact h.an, by rw [hns]; exact h.ns,
-    by rw [har, hp]; exact h.ar, by rw [hs, hc, hr]; exact h.sq, by rw [hs]; exact h.sa, by rw [hs]; exact h.su⟩
+    by rw [har, hp]; exact h.ar, by rw [hs, hc, hr]; exact h.sq, by rw [hs]; exact h.sa, by rw [hs]; exact h.su,
+    by rw [hmode]; exact h.pm⟩
   · obtain ⟨qs, h1, h2⟩ := h.q
     refine ⟨qs, ?_, h2⟩
     rw [hr]
@@ -191,21 +198,22 @@ theorem clay_congr {s s' : State} {b : Body} (h : CLay s b) (hw : WInv s) (hrr :
     exact rchainC_move (lo := 12) (fun it hlo hk hq => rfacts_frame (lo := 12) hq hlo hk hw.g12 hpre
       (by omega) hg) h12 h1
 
-theorem clay_hdrOnly {s s' : State} {b : Body} (h : CLay s b) (hI : I s) (k : HdrOnly s s') : CLay s' b :=
+theorem clay_hdrOnly {s s' : State} {b : Body} (h : CLay P s b) (hI : I s) (k : HdrOnly s s') : CLay P s' b :=
   clay_congr h hI.winv hI.inv.rr_hi (fun i hi _ => k.pre i hi) k.cursor k.rrStart
-    (fun g hg => by rw [k.gl]; exact hg) k.qd k.an k.ns k.ar (pend_of_isSome k.edns k.tsig) k.sect
+    (fun g hg => by rw [k.gl]; exact hg) k.qd k.an k.ns k.ar (pend_of_isSome k.edns k.tsig) k.sect k.mode
 
-theorem clay_same {s s' : State} {b : Body} (h : CLay s b) (hI : I s) (e : Same s s') : CLay s' b :=
+theorem clay_same {s s' : State} {b : Body} (h : CLay P s b) (hI : I s) (e : Same s s') : CLay P s' b :=
   clay_congr h hI.winv hI.inv.rr_hi (fun i _ hi => e.pre i hi) e.cursor e.rrStart
     (fun g hg => by rw [e.gLabels]; exact hg) e.qd e.an e.ns e.ar
-    (by unfold pend; rw [e.edns, e.tsig]) e.sect
+    (by unfold pend; rw [e.edns, e.tsig]) e.sect e.mode
 
 /-- records appended to a laid-out message -/
 theorem clay_add_records {s s0 s1 s' : State} {b : Body} {sec : RrSection} {recs : List RRec}
-    (h : CLay s b) (hcs : changeSection sec s = (.ok (), s0)) (e : Ext s s1)
-    (hch : s1.cursor ≤ 65535 → ∃ its, RChainC s1 its s.cursor s1.cursor ∧ its.map (·.r) = recs)
+    (h : CLay P s b) (hcs : changeSection sec s = (.ok (), s0)) (e : Ext s s1)
+    (hch : s1.cursor ≤ 65535 → ∃ its, RChainC s1 its s.cursor s1.cursor ∧ its.map (·.r) = recs ∧
+      ∀ it ∈ its, P it.m)
     (hs' : s' = (setCount sec (getCount sec s1 + recs.length) s1).2) (hsect : s1.sect = toSect sec)
-    (hrr : s.rrStart ≤ s.cursor) : CLay s' (b.add sec recs) := by
+    (hrr : s.rrStart ≤ s.cursor) : CLay P s' (b.add sec recs) := by
   obtain ⟨_, hA, hB⟩ := changeSection_ok_inv sec s s0 hcs
   have hp1 : pend s1 = pend s := by unfold pend; rw [e.edns, e.tsig]
   have ho : s'.octets = s1.octets := by rw [hs']; cases sec <;> rfl
@@ -233,19 +241,24 @@ theorem clay_add_records {s s0 s1 s' : State} {b : Body} {sec : RrSection} {recs
         | additional => exact absurd hsx hne
       simp [Body.add, this]
     | additional => simp [Body.add]
-  refine ⟨?_, ?_, ?_, ?_, ?_, ?_, ?_, ?_, ?_⟩
-  · obtain ⟨qs, h1, h2⟩ := h.q
-    refine ⟨qs, ?_, by cases sec <;> exact h2⟩
+  have hmd : s'.mode = s.mode := by
+    rw [hs', ← e.mode]; cases sec <;> rfl
+  refine ⟨?_, ?_, ?_, ?_, ?_, ?_, ?_, ?_, ?_, by rw [hmd]; exact h.pm⟩
+  · obtain ⟨qs, h1, h2, hP⟩ := h.q
+    refine ⟨qs, ?_, by cases sec <;> exact h2, hP⟩
     rw [hr, e.rrStart]
     exact qchainC_fields ho hc hg (qchainC_ext e hrr h1)
   · intro hle
     rw [hc] at hle
     have hle0 : s.cursor ≤ 65535 := by have := e.cur; omega
-    obtain ⟨rs, h1, h2⟩ := h.r hle0
-    obtain ⟨its, h3, h4⟩ := hch hle
-    refine ⟨rs ++ its, ?_, by rw [List.map_append, h2, h4, hlater]⟩
-    rw [hr, hc, e.rrStart]
-    exact rchainC_fields ho hc hg (rchainC_append (rchainC_ext e (Nat.le_refl _) h1) h3)
+    obtain ⟨rs, h1, h2, hP⟩ := h.r hle0
+    obtain ⟨its, h3, h4, hP2⟩ := hch hle
+    refine ⟨rs ++ its, ?_, by rw [List.map_append, h2, h4, hlater], fun it hx => ?_⟩
+    · rw [hr, hc, e.rrStart]
+      exact rchainC_fields ho hc hg (rchainC_append (rchainC_ext e (Nat.le_refl _) h1) h3)
+    · rcases List.mem_append.mp hx with hx | hx
+      · exact hP it hx
+      · exact hP2 it hx
   · rw [hs']; cases sec <;> (show s1.qdcount = _; rw [e.qd]; exact h.qd)
   · rw [hs']
     cases sec with
@@ -336,9 +349,9 @@ theorem addRr_itemC (hint : Hint) (owner : WName) (ty cls ttl : Nat) (rd : List 
 
 /-- **`add_*_rr` keeps the layout**, and the record is the one given -/
 theorem clay_addRrOp (sec : RrSection) (hint : Hint) (owner : WName) (ty cls ttl : Nat) (rd : List UInt8)
-    (s s' : State) {b : Body} (hI : I s) (h : CLay s b) (hwf : owner.WF) (hh : HintOK s hint owner)
+    (s s' : State) {b : Body} (hI : I s) (h : CLay P s b) (hwf : owner.WF) (hh : HintOK s hint owner)
     (hok : addRrOp sec hint owner ty cls ttl rd s = (.ok (), s')) :
-    CLay s' (b.add sec [⟨owner, ty, cls, ttlFrom ttl, rd⟩]) := by
+    CLay P s' (b.add sec [⟨owner, ty, cls, ttlFrom ttl, rd⟩]) := by
   obtain ⟨s1, s2, h1, h2, _, hs'⟩ := addRrOp_ok_inv sec hint owner ty cls ttl rd s s' hok
   obtain ⟨c1, c2, c3, c4, c5, c6, c7⟩ := changeSection_spec sec s
   have hfr1 := frame_changeSection sec s
@@ -359,9 +372,12 @@ theorem clay_addRrOp (sec : RrSection) (hint : Hint) (owner : WName) (ty cls ttl
   intro hle
   have hl1 : PtrLogOK s1 := ptrLog_ext hI.log hfr1 (by
     have := changeSection_gPtrs sec s; rw [h1] at this; exact this)
-  obtain ⟨it, hch, hr, _⟩ := addRr_itemC hint owner ty cls (ttlFrom ttl) rd s1 s2 w1 hl1 hwf hh1 h2 hle
+  obtain ⟨it, hch, hr, hm⟩ := addRr_itemC hint owner ty cls (ttlFrom ttl) rd s1 s2 w1 hl1 hwf hh1 h2 hle
   rw [c6] at hch
-  exact ⟨[it], hch, by simp [hr]⟩
+  refine ⟨[it], hch, by simp [hr], fun x hx => ?_⟩
+  simp only [List.mem_singleton] at hx
+  subst hx
+  rw [hm, hfr1.mode]; exact h.pm
 
 /-- an RRset, with content: one item per RDATA -/
 theorem addRrset_itemsC {track : Prop} {s0 : State} (owner : WName) (ty cls ttl : Nat) (hwf : owner.WF) :
@@ -370,14 +386,14 @@ theorem addRrset_itemsC {track : Prop} {s0 : State} (owner : WName) (ty cls ttl 
       (∃ loc o, RecSt track s0 s names loc o on0 ∧ HintOK s hint owner) →
       addRrset hint owner ty cls ttl rds n s = (.ok cnt, s') → s'.cursor ≤ 65535 →
       ∃ its, RChainC s' its s.cursor s'.cursor ∧
-        its.map (·.r) = rds.map (fun rd => (⟨owner, ty, cls, ttl, rd⟩ : RRec)) := by
+        its.map (·.r) = rds.map (fun rd => (⟨owner, ty, cls, ttl, rd⟩ : RRec)) ∧ ∀ it ∈ its, it.m = s.mode := by
   intro rds
   induction rds with
   | nil =>
     intro hint n names on0 s s' cnt _ h _
     simp only [addRrset, M.pure_apply] at h
     cases h
-    exact ⟨[], rfl, rfl⟩
+    exact ⟨[], rfl, rfl, fun _ hx => by cases hx⟩
   | cons rd rds ih =>
     intro hint n names on0 s s' cnt ⟨loc, o, hrec, hh⟩ h hle
     unfold addRrset at h
@@ -389,17 +405,24 @@ theorem addRrset_itemsC {track : Prop} {s0 : State} (owner : WName) (ty cls ttl 
       have := frame_addRrset .mostRecentOwner owner ty cls ttl rds (n + 1) s1
       rw [h2] at this; exact this
     have hle1 : s1.cursor ≤ 65535 := by have := e2.cur; omega
-    obtain ⟨it, hch1, hr1, _⟩ := addRr_itemC hint owner ty cls ttl rd s s1 hrec.winv hrec.log hwf hh h1 hle1
-    obtain ⟨its, hch, hl⟩ := ih .mostRecentOwner (n + 1) (names ++ rdataNames cls ty rd) (some owner) s1 s' cnt
+    obtain ⟨it, hch1, hr1, hm1⟩ := addRr_itemC hint owner ty cls ttl rd s s1 hrec.winv hrec.log hwf hh h1 hle1
+    obtain ⟨its, hch, hl, hms⟩ := ih .mostRecentOwner (n + 1) (names ++ rdataNames cls ty rd) (some owner) s1 s' cnt
       ⟨_, p, hrec1, recSt_ownerHint hrec1⟩ h2 hle
-    exact ⟨it :: its, rchainC_append (rchainC_ext e2 (Nat.le_refl _) hch1) hch, by simp [hr1, hl]⟩
+    have e1 : Ext s s1 := by
+      have := frame_addRr hint owner ty cls ttl rd s
+      rw [h1] at this; exact this
+    refine ⟨it :: its, rchainC_append (rchainC_ext e2 (Nat.le_refl _) hch1) hch, by simp [hr1, hl], fun x hx => ?_⟩
+    simp only [List.mem_cons] at hx
+    rcases hx with rfl | hx
+    · exact hm1
+    · rw [hms x hx, e1.mode]
 
 /-- **`add_*_rrset` keeps the layout**, and the records are those given -/
 theorem clay_addRrsetOp (sec : RrSection) (hint : Hint) (owner : WName) (ty cls ttl : Nat)
-    (rds : List (List UInt8)) (s s' : State) {b : Body} (hI : I s) (h : CLay s b) (hwf : owner.WF)
+    (rds : List (List UInt8)) (s s' : State) {b : Body} (hI : I s) (h : CLay P s b) (hwf : owner.WF)
     (hh : HintOK s hint owner)
     (hok : addRrsetOp sec hint owner ty cls ttl rds s = (.ok (), s')) :
-    CLay s' (b.add sec (rds.map fun rd => ⟨owner, ty, cls, ttlFrom ttl, rd⟩)) := by
+    CLay P s' (b.add sec (rds.map fun rd => ⟨owner, ty, cls, ttlFrom ttl, rd⟩)) := by
   obtain ⟨s1, s2, n, h1, h2, _, hs'⟩ := addRrsetOp_ok_inv sec hint owner ty cls ttl rds s s' hok
   obtain ⟨c1, c2, c3, c4, c5, c6, c7⟩ := changeSection_spec sec s
   have hfr1 := frame_changeSection sec s
@@ -423,17 +446,17 @@ theorem clay_addRrsetOp (sec : RrSection) (hint : Hint) (owner : WName) (ty cls 
   refine clay_add_records (recs := rds.map fun rd => ⟨owner, ty, cls, ttlFrom ttl, rd⟩) h h1 (Ext.trans hfr1 e2)
     ?_ (by rw [hs', List.length_map, hn]; simp) hsect hI.inv.rr_hi
   intro hle
-  obtain ⟨its, hch, hl⟩ := addRrset_itemsC (track := s.hv = some []) (s0 := s) owner ty cls (ttlFrom ttl) hwf rds
+  obtain ⟨its, hch, hl, hms⟩ := addRrset_itemsC (track := s.hv = some []) (s0 := s) owner ty cls (ttlFrom ttl) hwf rds
     hint 0 [] none s1 s2 n ⟨[], _, hr1, hh1⟩ h2 hle
   rw [c6] at hch
-  exact ⟨its, hch, hl⟩
+  exact ⟨its, hch, hl, fun x hx => by rw [hms x hx, hfr1.mode]; exact h.pm⟩
 
 
 /-! ### the question and the other calls -/
 
-theorem clay_addQuestion (qn : WName) (qt qc : Nat) (s s' : State) {b : Body} (hI : I s) (h : CLay s b)
+theorem clay_addQuestion (qn : WName) (qt qc : Nat) (s s' : State) {b : Body} (hI : I s) (h : CLay P s b)
     (hwf : qn.WF) (hok : addQuestion qn qt qc s = (.ok (), s')) :
-    CLay s' { b with qs := b.qs ++ [⟨qn, qt, qc⟩] } := by
+    CLay P s' { b with qs := b.qs ++ [⟨qn, qt, qc⟩] } := by
   obtain ⟨s3, hsq, hb, hs'⟩ := addQuestion_ok_inv qn qt qc s s' hok
   obtain ⟨k, hit, hcur, hnm, hby⟩ := addQuestionBody_item qn qt qc s s3 hI.winv hwf hb
   have e : Ext s s3 := by
@@ -447,9 +470,12 @@ theorem clay_addQuestion (qn : WName) (qt qc : Nat) (s s' : State) {b : Body} (h
   have hc : s'.cursor = s3.cursor := by rw [hs']
   have hg : s'.gLabels = s3.gLabels := by rw [hs']
   have hp : pend s' = pend s := by rw [hs']; unfold pend; show _ = _; rw [e.edns, e.tsig]
-  refine ⟨?_, ?_, ?_, ?_, ?_, ?_, ?_, ?_, ?_⟩
-  · obtain ⟨qs, h1, h2⟩ := h.q
-    refine ⟨qs ++ [⟨s.cursor, k, s.mode, ⟨qn, qt, qc⟩⟩], ?_, by rw [List.map_append, h2]; rfl⟩
+  refine ⟨?_, ?_, ?_, ?_, ?_, ?_, ?_, ?_, ?_, by rw [hs']; show P s3.mode; rw [e.mode]; exact h.pm⟩
+  · obtain ⟨qs, h1, h2, hP⟩ := h.q
+    refine ⟨qs ++ [⟨s.cursor, k, s.mode, ⟨qn, qt, qc⟩⟩], ?_, by rw [List.map_append, h2]; rfl, fun x hx => by
+      rcases List.mem_append.mp hx with hx | hx
+      · exact hP x hx
+      · simp only [List.mem_singleton] at hx; subst hx; exact h.pm⟩
     have hq3 : QChainC s3 qs 12 s.cursor := by
       rw [hcr]; exact qchainC_ext e hI.inv.rr_hi h1
     have := qchainC_snoc (x := ⟨s.cursor, k, s.mode, ⟨qn, qt, qc⟩⟩) hq3 ⟨hit, hnm, hby⟩
@@ -457,7 +483,7 @@ theorem clay_addQuestion (qn : WName) (qt qc : Nat) (s s' : State) {b : Body} (h
     rw [hrs]
     exact qchainC_fields ho hc hg this
   · intro hle
-    refine ⟨[], ?_, by rw [hban, hbns, hbar]; rfl⟩
+    refine ⟨[], ?_, by rw [hban, hbns, hbar]; rfl, fun _ hx => by cases hx⟩
     rw [hs']; exact rfl
   · rw [hs']; show s3.qdcount + 1 = _; rw [e.qd, h.qd, List.length_append]; rfl
   · rw [hs']; show s3.ancount = _; rw [e.an]; exact h.an
@@ -467,13 +493,13 @@ theorem clay_addQuestion (qn : WName) (qt qc : Nat) (s s' : State) {b : Body} (h
   · intro _; exact ⟨hbns, hbar⟩
   · intro _; exact hbar
 
-theorem clay_counts {s s' : State} {b : Body} (h : CLay s b) (ho : s'.octets = s.octets)
+theorem clay_counts {s s' : State} {b : Body} (h : CLay P s b) (ho : s'.octets = s.octets)
     (hc : s'.cursor = s.cursor) (hg : s'.gLabels = s.gLabels) (hr : s'.rrStart = s.rrStart)
     (hqd : s'.qdcount = s.qdcount) (han : s'.ancount = s.ancount) (hns : s'.nscount = s.nscount)
-    (hs : s'.sect = s.sect) {d : Nat} (hp : pend s' = pend s + d) (har : s'.arcount = s.arcount + d) :
-    CLay s' b := by
+    (hs : s'.sect = s.sect) {d : Nat} (hp : pend s' = pend s + d) (har : s'.arcount = s.arcount + d)
+    (hm : P s'.mode) : CLay P s' b := by
   refine ⟨?_, ?_, by rw [hqd]; exact h.qd, by rw [han]; exact h.an, by rw [hns]; exact h.ns,
-    by rw [har, hp, h.ar]; omega, by rw [hs, hc, hr]; exact h.sq, by rw [hs]; exact h.sa, by rw [hs]; exact h.su⟩
+    by rw [har, hp, h.ar]; omega, by rw [hs, hc, hr]; exact h.sq, by rw [hs]; exact h.sa, by rw [hs]; exact h.su, hm⟩
   · obtain ⟨qs, h1, h2⟩ := h.q
     exact ⟨qs, by rw [hr]; exact qchainC_fields ho hc hg h1, h2⟩
   · intro hle
@@ -481,7 +507,7 @@ theorem clay_counts {s s' : State} {b : Body} (h : CLay s b) (ho : s'.octets = s
     obtain ⟨rs, h1, h2⟩ := h.r hle
     exact ⟨rs, by rw [hr, hc]; exact rchainC_fields ho hc hg h1, h2⟩
 
-theorem clay_setEdns (p : Nat) (s : State) {b : Body} (h : CLay s b) : CLay (setEdns p s).2 b := by
+theorem clay_setEdns (p : Nat) (s : State) {b : Body} (h : CLay P s b) : CLay P (setEdns p s).2 b := by
   unfold setEdns
   repeat' split
   all_goals first
@@ -489,11 +515,11 @@ theorem clay_setEdns (p : Nat) (s : State) {b : Body} (h : CLay s b) : CLay (set
     | skip
   rename_i h1 h2 h3
   have hn : s.edns = none := by cases he : s.edns <;> simp_all
-  refine clay_counts (d := 1) h rfl rfl rfl rfl rfl rfl rfl rfl ?_ rfl
+  refine clay_counts (d := 1) h rfl rfl rfl rfl rfl rfl rfl rfl ?_ rfl h.pm
   unfold pend; simp [hn]; omega
 
-theorem clay_setTsig (m : TsigMode) (rr : TsigRr) (s : State) {b : Body} (h : CLay s b) :
-    CLay (setTsig m rr s).2 b := by
+theorem clay_setTsig (m : TsigMode) (rr : TsigRr) (s : State) {b : Body} (h : CLay P s b) :
+    CLay P (setTsig m rr s).2 b := by
   unfold setTsig
   repeat' split
   all_goals first
@@ -501,16 +527,30 @@ theorem clay_setTsig (m : TsigMode) (rr : TsigRr) (s : State) {b : Body} (h : CL
     | skip
   rename_i h1 h2 h3
   have hn : s.tsig = none := by cases he : s.tsig <;> simp_all
-  refine clay_counts (d := 1) h rfl rfl rfl rfl rfl rfl rfl rfl ?_ rfl
+  refine clay_counts (d := 1) h rfl rfl rfl rfl rfl rfl rfl rfl ?_ rfl h.pm
   unfold pend; simp [hn]
 
-theorem clay_setMode (m : CMode) (s : State) {b : Body} (h : CLay s b) : CLay (setCompressionMode m s).2 b :=
-  clay_counts (d := 0) h rfl rfl rfl rfl rfl rfl rfl rfl rfl rfl
+theorem clay_setMode (m : CMode) (s : State) {b : Body} (h : CLay P s b) (hm : P m) :
+    CLay P (setCompressionMode m s).2 b :=
+  clay_counts (d := 0) h rfl rfl rfl rfl rfl rfl rfl rfl rfl rfl hm
 
-theorem clay_hv (s : State) (v : Option HV) {b : Body} (h : CLay s b) : CLay { s with hv := v } b :=
-  clay_counts (d := 0) h rfl rfl rfl rfl rfl rfl rfl rfl rfl rfl
+theorem clay_hv (s : State) (v : Option HV) {b : Body} (h : CLay P s b) : CLay P { s with hv := v } b :=
+  clay_counts (d := 0) h rfl rfl rfl rfl rfl rfl rfl rfl rfl rfl h.pm
 
-theorem clay_new (buf : Bytes) (limit : Nat) (s : State) (h : Writer.new buf limit = .ok s) : CLay s {} := by
+/-- a fresh writer, put into mode `m` -/
+theorem clay_new (buf : Bytes) (limit : Nat) (s : State) (h : Writer.new buf limit = .ok s) (m : CMode)
+    (hm : P m) : CLay P { s with mode := m } {} := by
+  suffices hh : CLay (fun _ => True) s {} by
+    refine ⟨?_, ?_, hh.qd, hh.an, hh.ns, hh.ar, hh.sq, hh.sa, hh.su, hm⟩
+    · obtain ⟨qs, h1, h2, _⟩ := hh.q
+      have : qs = [] := by simpa using h2
+      subst this
+      exact ⟨[], h1, rfl, fun _ hx => by cases hx⟩
+    · intro hle
+      obtain ⟨rs, h1, h2, _⟩ := hh.r hle
+      have : rs = [] := by simpa using h2
+      subst this
+      exact ⟨[], h1, rfl, fun _ hx => by cases hx⟩
   unfold Writer.new at h
   dsimp only at h
   split at h
@@ -520,8 +560,9 @@ theorem clay_new (buf : Bytes) (limit : Nat) (s : State) (h : Writer.new buf lim
     have h2 : s.cursor = 12 := by rw [← hs]; rfl
     have h3 : s.qdcount = 0 ∧ s.ancount = 0 ∧ s.nscount = 0 ∧ s.arcount = 0 ∧ s.edns = none ∧ s.tsig = none := by
       rw [← hs]; exact ⟨rfl, rfl, rfl, rfl, rfl, rfl⟩
-    refine ⟨⟨[], by rw [h1]; rfl, rfl⟩, fun _ => ⟨[], by rw [h1, h2]; rfl, rfl⟩, h3.1, h3.2.1, h3.2.2.1, ?_,
-      fun _ => ⟨by rw [h1, h2], rfl, rfl, rfl⟩, fun _ => ⟨rfl, rfl⟩, fun _ => rfl⟩
+    refine ⟨⟨[], by rw [h1]; rfl, rfl, fun _ hx => by cases hx⟩,
+      fun _ => ⟨[], by rw [h1, h2]; rfl, rfl, fun _ hx => by cases hx⟩, h3.1, h3.2.1, h3.2.2.1, ?_,
+      fun _ => ⟨by rw [h1, h2], rfl, rfl, rfl⟩, fun _ => ⟨rfl, rfl⟩, fun _ => rfl, trivial⟩
     unfold pend
     rw [h3.2.2.2.1, h3.2.2.2.2.1, h3.2.2.2.2.2]
     rfl
@@ -555,15 +596,15 @@ theorem hop_shrink {oct : Bytes} {cur c' a k q : Nat} (hop : Hop oct cur a q) (h
       · omega
     exact .jump (by omega) h1 h2 hp hlt h3 hnp
 
-theorem clay_clearRrs (s : State) {b : Body} (h : CLay s b) (hI : I s) : CLay (clearRrs s).2 { qs := b.qs } := by
+theorem clay_clearRrs (s : State) {b : Body} (h : CLay P s b) (hI : I s) : CLay P (clearRrs s).2 { qs := b.qs } := by
   simp only [clearRrs, M.modify_apply]
   have hrr := hI.inv.rr_hi
   have hG : ∀ x, (GL s x ∧ x < s.rrStart) → x ∈ s.gLabels.filter (· < s.rrStart) := by
     intro x ⟨h1, h2⟩
     simp only [List.mem_filter, decide_eq_true_eq]
     exact ⟨h1, h2⟩
-  refine ⟨?_, fun _ => ⟨[], rfl, rfl⟩, h.qd, rfl, rfl, ?_, fun _ => ⟨rfl, rfl, rfl, rfl⟩, fun _ => ⟨rfl, rfl⟩,
-    fun _ => rfl⟩
+  refine ⟨?_, fun _ => ⟨[], rfl, rfl, fun _ hx => by cases hx⟩, h.qd, rfl, rfl, ?_, fun _ => ⟨rfl, rfl, rfl, rfl⟩,
+    fun _ => ⟨rfl, rfl⟩, fun _ => rfl, h.pm⟩
   · obtain ⟨qs, h1, h2⟩ := h.q
     refine ⟨qs, ?_, h2⟩
     show QChainC _ qs 12 s.rrStart
@@ -591,9 +632,9 @@ theorem clay_clearRrs (s : State) {b : Body} (h : CLay s b) (hI : I s) : CLay (c
 
 /-! ### templates, whole sessions -/
 
-theorem clay_template {s s' : State} {b : Body} {t : Template} (h : CLay s b) (hI : I s) (buf : Bytes)
+theorem clay_template {s s' : State} {b : Body} {t : Template} (h : CLay P s b) (hI : I s) (buf : Bytes)
     (ts : Option Tsig) (hsome : ts.isSome = s.tsig.isSome)
-    (ht : intoTemplate s = .ok t) (h' : tryFromTemplateImpl buf t ts = .ok s') : CLay s' b := by
+    (ht : intoTemplate s = .ok t) (h' : tryFromTemplateImpl buf t ts = .ok s') : CLay P s' b := by
   have hi := hI.inv
   have h1 := hi.hdr; have h2 := hi.cur_av; have h3 := hi.av_lim; have h4 := hi.lim_size
   unfold intoTemplate at ht
@@ -606,7 +647,7 @@ theorem clay_template {s s' : State} {b : Body} {t : Template} (h : CLay s b) (h
   · split at h'
     · cases h'
     · cases h'
-      refine clay_congr h hI.winv hi.rr_hi ?_ rfl rfl (fun _ hg => hg) rfl rfl rfl rfl ?_ rfl
+      refine clay_congr h hI.winv hi.rr_hi ?_ rfl rfl (fun _ hg => hg) rfl rfl rfl rfl ?_ rfl rfl
       · intro i _ hi'
         have := writeAt_get_in buf 0 (List.take s.cursor s.octets.toList) i (by simp; omega) (by simp; omega)
         simp only [Nat.zero_add] at this
@@ -617,16 +658,16 @@ theorem clay_template {s s' : State} {b : Body} {t : Template} (h : CLay s b) (h
         show _ + (if ts.isSome then 1 else 0) = _
         rw [hsome]
 
-theorem clay_retemplate {ss : Session} {b : Body} (h : CLay ss.w b) (hI : I ss.w) (n : Nat) (fill : UInt8)
+theorem clay_retemplate {ss : Session} {b : Body} (h : CLay P ss.w b) (hI : I ss.w) (n : Nat) (fill : UInt8)
     (mk : Bytes → Template → Out WriterErr State) (hmk : MkOK mk) :
-    CLay (retemplate ss n fill mk).2.w b := by
+    CLay P (retemplate ss n fill mk).2.w b := by
   obtain ⟨t, ht⟩ := intoTemplate_ok hI.inv
   have htt := intoTemplate_tsig ht
   unfold retemplate
   rw [ht]
   simp only []
   obtain ⟨sf, hsf⟩ := tryFromTemplate_fallback_ok fill hI.inv ht
-  have hlf : CLay sf b := clay_template h hI _ t.tsig (by rw [htt]) ht hsf
+  have hlf : CLay P sf b := clay_template h hI _ t.tsig (by rw [htt]) ht hsf
   cases hm : mk (Array.replicate n fill) t with
   | ok s' =>
     simp only []
@@ -638,15 +679,16 @@ theorem clay_retemplate {ss : Session} {b : Body} (h : CLay ss.w b) (hI : I ss.w
   | err e => simp only []; rw [hsf]; exact hlf
   | panic => simp only []; rw [hsf]; exact hlf
 
-theorem clay_liftW {ss : Session} {f : M Unit} {b : Body} (h : CLay (f ss.w).2 b) : CLay (liftW ss f).2.w b := by
+theorem clay_liftW {ss : Session} {f : M Unit} {b : Body} (h : CLay P (f ss.w).2 b) : CLay P (liftW ss f).2.w b := by
   unfold liftW
   cases hf : f ss.w with
   | mk r s1 => rw [hf] at h; exact h
 
 /-- **every public call keeps the layout**: a successful call adds exactly what it was given, a
     failed call changes nothing — in every compression mode -/
-theorem clay_step (ss : Session) (op : Op) (b : Body) (hI : I ss.w) (h : CLay ss.w b) (hop : OpOK ss op) :
-    CLay (step ss op).2.w (if (step ss op).1 = .ok () then bodyStep b op else b) := by
+theorem clay_step (ss : Session) (op : Op) (b : Body) (hI : I ss.w) (h : CLay P ss.w b) (hop : OpOK ss op)
+    (hpm : ∀ m, op = .setMode m → P m) :
+    CLay P (step ss op).2.w (if (step ss op).1 = .ok () then bodyStep b op else b) := by
   have hnp := (step_I ss op hI hop).1
   -- failed calls: nothing changed
   by_cases herr : ∃ e, (step ss op).1 = .err e
@@ -661,7 +703,7 @@ theorem clay_step (ss : Session) (op : Op) (b : Body) (hI : I ss.w) (h : CLay ss
     | panic => exact absurd hr hnp
   rw [hok]
   simp only [if_true]
-  have lw : ∀ {f : M Unit}, (∀ s, HdrOnly s (f s).2) → CLay (liftW ss f).2.w b := fun hf =>
+  have lw : ∀ {f : M Unit}, (∀ s, HdrOnly s (f s).2) → CLay P (liftW ss f).2.w b := fun hf =>
     clay_liftW (clay_hdrOnly h hI (hf ss.w))
   cases op with
   | setId v => exact lw (hdrOnly_write _ _ (by show _ + 2 ≤ 12; decide))
@@ -674,7 +716,7 @@ theorem clay_step (ss : Session) (op : Op) (b : Body) (hI : I ss.w) (h : CLay ss
   | setRcode v => exact lw (hdrOnly_setRcode v)
   | setExtendedRcode v => exact lw (f := setExtendedRcode v) (hdrOnly_setExtendedRcode v)
   | setLimit v => exact lw (hdrOnly_setLimit v)
-  | setMode m => exact clay_liftW (clay_setMode m ss.w h)
+  | setMode m => exact clay_liftW (clay_setMode m ss.w h (hpm m rfl))
   | addQuestion n t c =>
     simp only [step, liftW] at hok ⊢
     cases hq : addQuestion n t c ss.w with
@@ -716,14 +758,16 @@ theorem clay_step (ss : Session) (op : Op) (b : Body) (hI : I ss.w) (h : CLay ss
   | getters => exact h
 
 /-- **for all sequences of calls that respect the contract**, in every compression mode -/
-theorem clay_run (ss : Session) (ops : List Op) (b : Body) (hI : I ss.w) (h : CLay ss.w b)
-    (hr : Respects ss ops) : CLay (run ss ops).1.w (bodyRun b ops (run ss ops).2) := by
+theorem clay_run (ss : Session) (ops : List Op) (b : Body) (hI : I ss.w) (h : CLay P ss.w b)
+    (hr : Respects ss ops) (hpm : ∀ m, Op.setMode m ∈ ops → P m) :
+    CLay P (run ss ops).1.w (bodyRun b ops (run ss ops).2) := by
   induction ops generalizing ss b with
   | nil => exact h
   | cons op ops ih =>
     obtain ⟨hop, hrest⟩ := hr
     obtain ⟨hnp, hI'⟩ := step_I ss op hI hop
-    have hs' := clay_step ss op b hI h hop
+    have hs' := clay_step ss op b hI h hop (fun m hm => hpm m (by rw [hm]; exact List.mem_cons_self))
+    have hpm' : ∀ m, Op.setMode m ∈ ops → P m := fun m hm => hpm m (List.mem_cons_of_mem _ hm)
     unfold run
     cases hs : step ss op with
     | mk r ss' =>
@@ -732,12 +776,12 @@ theorem clay_run (ss : Session) (ops : List Op) (b : Body) (hI : I ss.w) (h : CL
       | panic => exact absurd rfl hnp
       | ok u =>
         simp only [] at hs' ⊢
-        have := ih ss' _ hI' (by simpa using hs') hrest
+        have := ih ss' _ hI' (by simpa using hs') hrest hpm'
         cases hrun : run ss' ops with
         | mk ss'' rs => rw [hrun] at this; simpa [bodyRun] using this
       | err e =>
         simp only [] at hs' ⊢
-        have := ih ss' _ hI' (by simpa using hs') hrest
+        have := ih ss' _ hI' (by simpa using hs') hrest hpm'
         cases hrun : run ss' ops with
         | mk ss'' rs => rw [hrun] at this; simpa [bodyRun] using this
 
